@@ -87,6 +87,27 @@ def check_database(ctx, db, zones, syms, symids, label, baseline, nt):
             ctx.violation("idconst-set:%s" % label, {"db": label}, "%s: kZoneId constants do not cover exactly the declared zones" % label)
 
 
+NAMES_SOURCE = (
+    "Rule\tPN\t1990\tmax\t-\tMar\tlastSun\t2:00\t1:00\tD\n"
+    "Rule\tPN\t1990\tmax\t-\tOct\tlastSun\t3:00\t0\tS\n"
+    "Zone\tEtc/GMT+5\t-5:00\t-\t-05\n"
+    "Zone\tEtc/GMT-5\t5:00\t-\t+05\n"
+    "Zone\tEtc/GMT\t0\t-\tGMT\n"
+    "Zone\tTest/New-Town\t2:07\t-\tLMT\t1985\n\t\t\t2:00\tPN\tE%sT\n"
+    "Zone\tTest/New_Town\t-5:07\t-\tLMT\t1985\n\t\t\t-5:00\t-\tEST\n"
+    "Zone\tTest/Other\t1:07\t-\tLMT\t1985\n\t\t\t1:00\tPN\tC%sT\n"
+    "Zone\tTest/A-B\t4:00\t-\t+04\n"
+    "Zone\tTest/A_B_C\t6:00\t-\t+06\n"
+    "Zone\tNOSLASH\t3:07\t-\tLMT\t1985\n\t\t\t3:00\t-\tMSK\n"
+    "Link\tEtc/GMT+5\tTest/FiveWest\n"
+    "Link\tEtc/GMT-5\tTest/FiveEast\n"
+    "Link\tEtc/GMT\tTest/Zero+Plus\n"
+    "Link\tTest/New_Town\tTest/Newtown\n"
+    "Link\tTest/Other\tTest/Alias\n"
+    "Link\tTest/New-Town\tTest/NewTownAlias\n"
+    "Link\tTest/A-B\tTest/AB-Link\n")
+
+
 def run(ctx):
     ctx.assumptions = ["independent djb2 (h = h*33 + c mod 2^32 from 5381), checked against the literals in tools/tests/test_transformer.py",
                        "baseline /verif/baselines/zone_ids.tsv records the ids published in the shipped 1.2.1 tables ('earlier releases')"]
@@ -129,37 +150,89 @@ def run(ctx):
         if h in pyids:
             ctx.violation("zonedbpy-dup:" + n, {"zones": [n, pyids[h]]}, "zonedbpy: %s and %s share an id" % (n, pyids[h]))
         pyids[h] = n
-    # freshly compiled databases (the compiler run on the source reconstructed from the shipped tables)
+    # freshly compiled databases: the source reconstructed from the shipped tables, and a small source whose names exercise the
+    # identifier normalisation ('+', '-', '_', names that normalise to the same identifier, links to each of them)
     import compilelib
     import tzoracle
     work = vt.build_dir("C11")
     for scope, dbdir, letter, bns in (("extended", "zonedbx", "x", "extended"), ("basic", "zonedb", "b", "basic")):
-        src, _, _ = tzoracle.reconstruct_source(dbdir)
-        ns = "fresh" + letter
-        rr = compilelib.compile_source(work, "fresh_" + scope, src, scope, "arduino", db_namespace=ns, actions="zonedb")
-        if rr["rc"] != 0:
-            raise vt.HarnessError("tzcompiler failed on the reconstructed source: " + rr["log"][-500:])
-        sym = os.path.join(work, "gen_symbols_%s.cpp" % letter)
-        dblib.gen_symbols_cpp([(letter, ns, bns, os.path.join(rr["outdir"], "zone_infos.h"))], sym)
-        # the symbol TU needs the generated headers
-        with open(sym) as f:
-            body = f.read()
-        with open(sym, "w") as f:
-            f.write('#include "%s"\n#include "%s"\n' % (os.path.join(rr["outdir"], "zone_policies.h"), os.path.join(rr["outdir"], "zone_infos.h")) + body)
-        exe = compilelib.build_with_generated("C11", "dump_fresh_" + letter, "dumpdb.cpp",
-                                              x_out=rr["outdir"] if letter == "x" else None, x_ns=ns,
-                                              b_out=rr["outdir"] if letter == "b" else None, b_ns=ns,
-                                              extra=["-DVDB_SYMBOLS=1"], extra_sources=[sym], opt="-O0")
-        rc, out, err = vt.run_exe(exe, [], timeout=600)
-        if rc != 0:
-            ctx.violation("fresh-dump-crash:" + scope, {}, "decoding the freshly compiled %s database crashed: %s" % (scope, (err or "")[-400:]))
-            continue
-        fr = dblib.parse_dump(out)
-        check_database(ctx, letter, fr["zones"][letter], fr["syms"][letter], fr["symids"][letter], "fresh-" + dbdir, baseline, nt)
-        shipped_ids = {z["name"]: z["id"] for z in r["zones"][letter]}
-        for z in fr["zones"][letter]:
-            if z["name"] in shipped_ids and shipped_ids[z["name"]] != z["id"]:
-                ctx.violation("fresh-id:%s:%s" % (scope, z["name"]), {"zone": z["name"]}, "freshly compiled id differs from the shipped id")
+        for corpus, src in (("recon", tzoracle.reconstruct_source(dbdir)[0]), ("names", NAMES_SOURCE)):
+            tag = "%s-%s" % (corpus, dbdir)
+            ns = "fresh" + letter + corpus[0]
+            rr = compilelib.compile_source(work, "fresh_%s_%s" % (corpus, scope), src, scope, "arduino", db_namespace=ns, actions="zonedb,tzdb")
+            if rr["rc"] != 0:
+                if corpus == "recon":
+                    raise vt.HarnessError("tzcompiler failed on the reconstructed source: " + rr["log"][-500:])
+                ctx.violation("fresh-compiler-failed:" + tag, {"source": src, "scope": scope}, "tzcompiler.py failed on the names source (%s): %s" % (scope, rr["log"][-600:]))
+                continue
+            sym = os.path.join(work, "gen_symbols_%s_%s.cpp" % (corpus, letter))
+            dblib.gen_symbols_cpp([(letter, ns, bns, os.path.join(rr["outdir"], "zone_infos.h"))], sym)
+            # the symbol TU needs the generated headers
+            with open(sym) as f:
+                body = f.read()
+            with open(sym, "w") as f:
+                f.write('#include "%s"\n#include "%s"\n' % (os.path.join(rr["outdir"], "zone_policies.h"), os.path.join(rr["outdir"], "zone_infos.h")) + body)
+            try:
+                exe = compilelib.build_with_generated("C11", "dump_fresh_%s_%s" % (corpus, letter), "dumpdb.cpp",
+                                                      x_out=rr["outdir"] if letter == "x" else None, x_ns=ns,
+                                                      b_out=rr["outdir"] if letter == "b" else None, b_ns=ns,
+                                                      extra=["-DVDB_SYMBOLS=1"], extra_sources=[sym], opt="-O0")
+            except compilelib.GeneratedDoesNotCompile as e:
+                ctx.violation("fresh-not-compilable:" + tag, {"source": src if corpus == "names" else None, "scope": scope},
+                              "the %s database generated from the %s source is not valid C++ (identifiers / id constants not unique?): %s" % (scope, corpus, str(e)[:700]))
+                continue
+            rc, out, err = vt.run_exe(exe, [], timeout=600)
+            if rc != 0:
+                ctx.violation("fresh-dump-crash:" + tag, {}, "decoding the freshly compiled %s database (%s) crashed: %s" % (scope, corpus, (err or "")[-400:]))
+                continue
+            fr = dblib.parse_dump(out)
+            check_database(ctx, letter, fr["zones"][letter], fr["syms"][letter], fr["symids"][letter], "fresh-" + tag, baseline if corpus == "recon" else None, nt)
+            if corpus == "recon":
+                shipped_ids = {z["name"]: z["id"] for z in r["zones"][letter]}
+                for z in fr["zones"][letter]:
+                    if z["name"] in shipped_ids and shipped_ids[z["name"]] != z["id"]:
+                        ctx.violation("fresh-id:%s:%s" % (scope, z["name"]), {"zone": z["name"]}, "freshly compiled id differs from the shipped id")
+                continue
+            # names corpus: every emitted link denotes the target the source gives it; zones and links agree with tzdb.json
+            tz = compilelib.load_tzdb_json(rr["outdir"])
+            src_links = {}
+            for line in src.splitlines():
+                f = line.split()
+                if f and f[0] == "Link":
+                    src_links[f[2]] = f[1]
+            got_links = {s_["declared"]: s_["name"] for s_ in fr["syms"][letter] if s_["kind"] == "link"}
+            for alias, target in sorted(tz["links_map"].items()):
+                ctx.evaluations += 1
+                if src_links.get(alias) != target or got_links.get(alias) != target:
+                    ctx.violation("fresh-link-target:%s:%s" % (tag, alias), {"source": src, "scope": scope, "link": alias},
+                                  "%s: link %s is %s in the source, %s in tzdb.json and denotes zone %s in the compiled database" %
+                                  (tag, alias, src_links.get(alias), target, got_links.get(alias)))
+            if sorted(z["name"] for z in fr["zones"][letter]) != sorted(tz["zones_map"]):
+                ctx.violation("fresh-zone-set:" + tag, {"source": src, "scope": scope}, "%s: compiled registry and tzdb.json list different zones" % tag)
+            # the Python-language database of the same source: every name maps to the entry carrying that name
+            rp = compilelib.compile_source(work, "freshpy_%s_%s" % (corpus, scope), src, scope, "python", actions="zonedb")
+            if rp["rc"] != 0:
+                ctx.violation("fresh-python-compiler-failed:" + tag, {"source": src, "scope": scope}, "tzcompiler.py --language python failed: %s" % rp["log"][-500:])
+                continue
+            import types
+            mods = {}
+            for mn in ("zone_policies", "zone_infos"):
+                code = open(os.path.join(rp["outdir"], mn + ".py")).read().replace("from zonedb.zone_policies import", "from c11fresh_zone_policies import").replace(
+                    "from .zone_policies import", "from c11fresh_zone_policies import")
+                m_ = types.ModuleType("c11fresh_" + mn)
+                sys.modules["c11fresh_" + mn] = m_
+                exec(compile(code, os.path.join(rp["outdir"], mn + ".py"), "exec"), m_.__dict__)
+                mods[mn] = m_
+            for n, info in mods["zone_infos"].ZONE_INFO_MAP.items():
+                ctx.evaluations += 1
+                nt.add(("fresh-python-" + tag, n))
+                if info["name"] != n:
+                    ctx.violation("fresh-python-name:%s:%s" % (tag, n), {"source": src, "scope": scope, "zone": n},
+                                  "%s: the generated Python database maps %r to the entry of %r" % (tag, n, info["name"]))
+            if sorted(mods["zone_infos"].ZONE_INFO_MAP) != sorted(tz["zones_map"]):
+                ctx.violation("fresh-python-zone-set:" + tag, {"source": src, "scope": scope}, "%s: Python database and tzdb.json list different zones" % tag)
+            for mn in ("zone_policies", "zone_infos"):
+                sys.modules.pop("c11fresh_" + mn, None)
     # generated: hash_name == djb2 on arbitrary names; collision detection fires iff two names collide
     pos = [0, 0, 0]
 
